@@ -1,12 +1,16 @@
-"""C35 — Response operators compute their documented quantity (DESIGN.md §5 C35).
+"""C35 — Response operators compute their documented quantity (DESIGN.md §5 C35; details in design.d/C35.md).
 
-Class E (exact, through the C02 engine + Driver/C35.lean): LinearInterpolator at dyadic points (all dimensions 1-3, periodic
-wrap), RegriddingOperator, FieldZeroPadder (plain/central), MaskOperator: dense matrices of all modes = Lean model.
-Oracles on the real code: interpolation reproduces random multi-affine polynomials exactly and returns grid values at grid
-points; regridding is exact on affine data; padding as documented; masks select exactly the unflagged pixels (adjoint
-zero-fills).  Class T: LOSResponse (σ=0) vs the exact rational traversal of Model/Response.lean (float32 weights in the
-code) and vs a sampled line integral; Nufft / Gridder / VariablePositionNufft vs explicit Fourier sums with an
-epsilon-dependent tolerance; nifty.re SamplingCartesianGridLOS vs the closed form on affine fields.
+Class E (exact, through the C02 engine + Driver/C35.lean): LinearInterpolator at dyadic points (1-3 D, periodic wrap, points far
+outside the grid, int64 position arrays), RegriddingOperator, FieldZeroPadder (plain/central), MaskOperator: dense matrices of
+all modes = Lean model.  LOSResponse (σ=0), three-way: code vs the exact-rational TRANSCRIPTION of `_comp_traverse`
+(Model/ResponseLos.lean, eps = 1e-7; float32 cast reproduced: two float32 ulps), code vs the independent segment model
+(Model/Response.lean; within the 1e-7 shrink), transcription vs independent model exactly inside Lean on every generic line.
+Nufft / Gridder / VariablePositionNufft: explicit Python Fourier sums (model-free) and, on a rational position lattice, the exact
+Lean model Model/Nft.lean (polynomials in ω evaluated numerically), epsilon-dependent tolerance.  nifty.re
+SamplingCartesianGridLOS: closed form on affine fields (model-free) and the exact transcription Model/ResponseSampling.lean on
+integer fields (1e-9).  Oracles on the real code only: documented periodic multilinear sum (exact), multi-affine polynomials,
+period shifts, constants; regridding exact on affine data; padding placement; mask selection; LOS = Σ field·|segment ∩ pixel|
+(per-pixel clipping, float64/complex/float32 fields); Fourier sums and the explicit derivative for the Jacobian.
 """
 import json
 import math
@@ -42,7 +46,7 @@ RULE = ("one case = (operator class, generated grid / sampling points / line seg
 TRUSTED_BASE = [
     "Lean 4.33 kernel; axioms propext/Classical.choice/Quot.sound only (audited every run)",
     "hand-written Lean models Model/Response.lean (interpolation, independent LOS segment model), Model/ResponseLos.lean "
-    "(transcription of _comp_traverse / LOSResponse.__init__), Model/Nft.lean (lattice Fourier matrix), Model/LinOps.lean "
+    "(transcription of _comp_traverse / LOSResponse.__init__), Model/Nft.lean (lattice Fourier matrix), Model/ResponseSampling.lean (transcription of nifty.re _los), Model/LinOps.lean "
     "(regridding, padding, mask), each tied by differential comparison",
     "ducc0 nufft/wgridder kernels, scipy.sparse, jax map_coordinates: executed, compared with explicit sums / closed forms only",
     "harness: generators, explicit O(n·m) Fourier sums and their derivative, per-pixel segment∩box lengths, exact periodic "
